@@ -446,12 +446,16 @@ func init() {
 		parent, _ := a[0].(iface).v.(*ctxVal)
 		return iface{t: ctxT, v: &ctxVal{parent: parent, key: a[1], val: a[2]}}
 	})
-	reg("context.WithCancel", func(fr *frame, a []value) value {
-		return tuple{a[0], &intrinsicFn{name: "cancel", fn: func(fr *frame, args []value) value { return nil }}}
-	})
-	reg("context.WithTimeout", func(fr *frame, a []value) value {
-		return tuple{a[0], &intrinsicFn{name: "cancel", fn: func(fr *frame, args []value) value { return nil }}}
-	})
+	withCancel := func(fr *frame, a []value) value {
+		parent, ok := a[0].(iface).v.(*ctxVal)
+		if !ok {
+			return tuple{a[0], &intrinsicFn{name: "cancel", fn: func(fr *frame, args []value) value { return nil }}}
+		}
+		c := &ctxVal{parent: parent, cancelled: new(bool)}
+		return tuple{iface{t: ctxT, v: c}, &intrinsicFn{name: "cancel", fn: func(fr *frame, args []value) value { *c.cancelled = true; return nil }}}
+	}
+	reg("context.WithCancel", withCancel)
+	reg("context.WithTimeout", withCancel)
 
 	// ---- errors
 	reg("errors.New", func(fr *frame, a []value) value { return mkSymErr("errors.New", a[0]) })
@@ -833,6 +837,18 @@ type ctxVal struct {
 	parent *ctxVal
 	key    value
 	val    value
+	// cancelled: set by the cancel function of context.WithCancel / WithTimeout (nil for value contexts);
+	// deadlines themselves never fire (harnesses cancel explicitly)
+	cancelled *bool
+}
+
+func (c *ctxVal) isCancelled() bool {
+	for ; c != nil; c = c.parent {
+		if c.cancelled != nil && *c.cancelled {
+			return true
+		}
+	}
+	return false
 }
 
 var ctxT = &nativeType{"context"}
